@@ -198,19 +198,17 @@ def Py.isNull : Py → Bool | .null => true | _ => false
 def lookupKey (kvs : List (String × Py)) (k : String) : Option Py :=
   (kvs.find? (fun kv => kv.1 == k)).map (·.2)
 
-/-- one item of a mapping loop; `keyFirst` = `MappingCheckOnly` (key checked first), otherwise the
-    value is evaluated first (`items[key(k)] = value(v)`) and only the first failure is reported -/
-def stepItem (keyFirst : Bool) (k : String) (rk rv : Outcome Val) (rest : Acc) : Acc :=
-  let first := if keyFirst then rk else rv
-  let second := if keyFirst then rv else rk
-  match first with
-  | .crash c => { crash := some c }
-  | .invalid e => { rest with errs := setChild (.name k) e rest.errs }
-  | .ok _ =>
-    match second with
-    | .crash c => { crash := some c }
-    | .invalid e => { rest with errs := setChild (.name k) e rest.errs }
-    | .ok _ => rest
+/-- one item of a mapping loop (both `MappingCheckOnly` and `MappingMethod`, since the repair of row 30): the key is
+    deserialized, then the value, and their errors are merged under the item's key (`keyFirst` is kept in the signature
+    for the callers; it no longer matters) -/
+def stepItem (_keyFirst : Bool) (k : String) (rk rv : Outcome Val) (rest : Acc) : Acc :=
+  match rk, rv with
+  | .crash c, _ => { crash := some c }
+  | _, .crash c => { crash := some c }
+  | .invalid ek, .invalid ev => { rest with errs := setChild (.name k) (ek.merge ev) rest.errs }
+  | .invalid e, .ok _ => { rest with errs := setChild (.name k) e rest.errs }
+  | .ok _, .invalid e => { rest with errs := setChild (.name k) e rest.errs }
+  | .ok _, .ok _ => rest
 
 def collectItems (keyFirst : Bool) (fk fv : Py → Outcome Val) : List (String × Py) → Acc
   | [] => {}
